@@ -40,7 +40,7 @@ def cells(tier, seed):
 
 def explore_opts(params, tier):
     st = params["group"] == "stochastic"
-    return {"timeout_s": 2.0 if tier == "quick" else 60.0, "max_paths": 6, "norm_first": True, "path_budget_s": 90.0,
+    return {"timeout_s": 2.0 if tier == "quick" else 15.0, "max_paths": 6, "norm_first": True, "path_budget_s": 90.0,
             "engine_opts": {"cut_sites": ("linear_cg", "lanczos_tridiag_to_diag") if st else (), "item_whitelist": ("linear_cg",),
                             "floor_cut": True}}
 
